@@ -49,6 +49,12 @@ def run_property(P, pid, tier, seed, replay):
     violations = []      # concrete failing inputs (oracle on the implementation)
     notes = []
 
+    # one build at a time per /verif (two checks started together would otherwise run make / cargo / ocamlopt in the same directories)
+    import fcntl
+    os.makedirs(vlib.CACHE, exist_ok=True)
+    build_lock = open(os.path.join(vlib.CACHE, "build.lock"), "w")
+    fcntl.flock(build_lock, fcntl.LOCK_EX)
+
     # ---- 1. translator -------------------------------------------------------------
     ok, out = vlib.gen_consts()
     if not ok:
@@ -100,6 +106,9 @@ def run_property(P, pid, tier, seed, replay):
         for b in P.extra_builds():
             if not b[0]:
                 breaks.append({"kind": "harness-build", "what": b[1], "detail": b[2][-2500:]})
+
+    fcntl.flock(build_lock, fcntl.LOCK_UN)
+    build_lock.close()
 
     # ---- 4. cases --------------------------------------------------------------------------
     if replay:
